@@ -27,6 +27,11 @@ def _genome(G, with_ignored=False):
         from bionumpy.genomic_data.genome_context import ignore_underscores
         sizes = dict(list(sizes.items())[:1] + [("chr1_alt", 3)] + list(sizes.items())[1:])
         return bnp.Genome.from_dict(sizes, filter_function=ignore_underscores)
+    if with_ignored == "derived":
+        # a genome derived (with_ignored_added) from one that already filters a contig out: it ignores the old names and the new one
+        from bionumpy.genomic_data.genome_context import ignore_underscores
+        sizes = dict(list(sizes.items())[:1] + [("chr1_alt", 3)] + list(sizes.items())[1:])
+        return bnp.Genome.from_dict(sizes, filter_function=ignore_underscores).with_ignored_added(["extra_contig"])
     if with_ignored == "sorted":
         # the same contigs listed in the opposite order, the genome asked to sort the names (sizes of different contigs differ)
         return bnp.Genome(dict(reversed(list(sizes.items()))), sort_names=True)
@@ -73,10 +78,13 @@ def check_vector(v):
     r = _check(v, False)
     if hash(json.dumps([v["G"], v["bg"]])) % 3 == 0:
         r2 = _check(v, True)
-        r = {"n": r["n"] + r2["n"], "nt": r["nt"], "bad": r["bad"] + r2["bad"]}
+        r = dict(r, n=r["n"] + r2["n"], bad=r["bad"] + r2["bad"])          # (keeps r["back"], the records for the trace check)
     elif hash(json.dumps([v["G"], v["bg"]])) % 3 == 1 and len(v["G"]) > 1:
         r2 = _check(v, "sorted")
-        r = {"n": r["n"] + r2["n"], "nt": r["nt"], "bad": r["bad"] + r2["bad"]}
+        r = dict(r, n=r["n"] + r2["n"], bad=r["bad"] + r2["bad"])          # (keeps r["back"], the records for the trace check)
+    else:
+        r2 = _check(v, "derived")
+        r = dict(r, n=r["n"] + r2["n"], bad=r["bad"] + r2["bad"])          # (keeps r["back"], the records for the trace check)
     return r
 
 
@@ -94,7 +102,7 @@ def _check(v, with_ignored):
     st = np.array([r["s"] for r in bg], dtype=int)
     en = np.array([r["e"] for r in bg], dtype=int)
     vals = np.array([r["v"] for r in bg], dtype=int)
-    tags = {"op": tree[0], "depth": _depth(tree), "empty": not bg, "ignored_contig_listed": with_ignored is True, "sort_names": with_ignored == "sorted"}
+    tags = {"op": tree[0], "depth": _depth(tree), "empty": not bg, "ignored_contig_listed": with_ignored in (True, "derived"), "sort_names": with_ignored == "sorted", "derived_genome": with_ignored == "derived"}
 
     def dense(x):
         d = x.to_dict()
@@ -271,6 +279,8 @@ def run(ctx):
     results = core.pmap(check_vector, vectors, chunk=50)
     ctx.absorb(results)
     items = [r["back"] for r in results if r.get("back")]
+    if len(items) < len(vectors) // 2:
+        raise core.MachineryFailure("only %d of %d vectors delivered records for the back-conversion check" % (len(items), len(vectors)))
     badb, nacc = validate_back(ctx, items)
     for b in badb:
         ctx.disagree(b)
